@@ -21,7 +21,7 @@ func init() {
 }
 
 func runC18(c *Ctx) {
-	c.Rule("C18.O1", "E4", "Engine.Stop: listeners -> snapshot (under Engine.mux) -> closes -> wgConn.Wait -> onStop -> Timer.Stop / ioTaskPool.Stop -> pollers -> WaitGroup.Wait; both waits dominate the return", 2)
+	c.Rule("C18.O1", "E4", "Engine.Stop: listeners -> wait for the acceptor goroutines (a connection accepted just before the listener closed is added before the snapshot, not behind it) -> snapshot (under Engine.mux) -> closes -> wgConn.Wait -> onStop -> Timer.Stop / ioTaskPool.Stop -> pollers -> WaitGroup.Wait; both waits dominate the return", 2)
 	c.Rule("C18.O2", "E4", "poller.stop stores shutdown before the wake-up; acceptorLoop and readWriteLoop re-read shutdown in their loop condition", 3)
 	c.Rule("C18.O3", "E4", "go p.start() preceded by Add(1); start defers Done first and the descriptor closes before the IO loop; newPoller closes opened descriptors on error exits; nbhttp.listen pairs Add/deferred Done", 4)
 	c.Rule("C18.O4", "E5", "nbhttp.Stop: shutdown flag, listeners, then core Stop; stopListeners stops the mux in mixed mode; the stop hook stops both pools and replaces the executors; Shutdown closes tracked connections before delegating; Stop closes them too (the blocking-mode ones are known only to the HTTP engine)", 5)
@@ -32,6 +32,8 @@ func runC18(c *Ctx) {
 	c.Rule("C18.O13", "E4", "a producer can always be released by Stop: every send to the task pool's queue channel is a select case next to a receive from the pool's close channel (or non-blocking); a plain send blocks the poller goroutine that submits read jobs for ever once the queue is full and the pool stopped", 1)
 	c.Rule("C18.O14", "E4", "a transferred connection is tracked before it is registered: AddTransferredConn's insert into Engine.conns precedes AddConn (the close job's delete can then only come after it), and the failure path undoes it", 1)
 	c18Round5(c)
+	c.Rule("C18.O15", "E4", "the acceptor goroutines are counted: Engine.Start adds to Engine.wgListeners before it starts a listener's goroutine, and poller.start defers the Done on its listener edge, so the wait in Stop is neither vacuous nor endless", 2)
+	c18ListenerCount(c)
 	c.Rule("C18.O7", "E4", "the blocking readers' deferred clean-up removes the connection from the tracked set (delete(engine.conns, key) under Engine.mux), reports the close and releases the load slot on every path: Shutdown waits for the set to drain; it closes the connection it was reading unless that was transferred", 4)
 	c.Rule("C18.O8", "E4", "every torn-down connection reaches the close notification that releases the connection WaitGroup (same rule as C03.O9): Stop waits on it", 1)
 	c.Rule("C18.O9", "E5", "the listener mux's close channel is created once, in its constructor: the channel listeners copy it when they are made, so a later re-assignment leaves them waiting on a channel nobody closes", 1)
@@ -70,7 +72,18 @@ func runC18(c *Ctx) {
 				return false
 			}
 		}
+		wgOn := func(method, field string) func(in ssa.Instruction) bool {
+			return func(in ssa.Instruction) bool {
+				cs, ok := ir.AsCall(in)
+				if !ok || c.P.CalleeName(cs.Common) != "(*sync.WaitGroup)."+method {
+					return false
+				}
+				fa, ok := ir.Root(cs.Common.Args[0]).(*ssa.FieldAddr)
+				return ok && c.P.FieldKey(fa) == field
+			}
+		}
 		find("stop listeners", stopOn("nbio.Engine.listeners"))
+		find("wait for the acceptor goroutines", wgOn("Wait", "nbio.Engine.wgListeners"))
 		find("snapshot of connsUnix", func(in ssa.Instruction) bool { return isLoadOfField(in, c.P, fEngConnsUnix) })
 		find("close every snapshot entry", func(in ssa.Instruction) bool {
 			cs, ok := ir.AsCall(in)
@@ -83,16 +96,6 @@ func runC18(c *Ctx) {
 			}
 			return len(c.P.CallsNamed(mc.Fn.(*ssa.Function), "(*nbio.Conn).Close")) == 1
 		})
-		wgOn := func(method, field string) func(in ssa.Instruction) bool {
-			return func(in ssa.Instruction) bool {
-				cs, ok := ir.AsCall(in)
-				if !ok || c.P.CalleeName(cs.Common) != "(*sync.WaitGroup)."+method {
-					return false
-				}
-				fa, ok := ir.Root(cs.Common.Args[0]).(*ssa.FieldAddr)
-				return ok && c.P.FieldKey(fa) == field
-			}
-		}
 		find("wgConn.Wait", wgOn("Wait", "nbio.Engine.wgConn"))
 		find("stop hook", func(in ssa.Instruction) bool {
 			cs, ok := ir.AsCall(in)
@@ -123,7 +126,7 @@ func runC18(c *Ctx) {
 		// ioTaskPool.Stop between the hook and the pollers (when created)
 		if bad == "" {
 			for _, in := range instrsOf(st, func(in ssa.Instruction) bool { return c.isCallTo(in, "(*taskpool.IOTaskPool).Stop") }) {
-				if !fi.CanReach(steps[4].ins[0], in) || !fi.CanReach(in, steps[6].ins[0]) {
+				if !fi.CanReach(steps[5].ins[0], in) || !fi.CanReach(in, steps[7].ins[0]) {
 					c.Bad("C18.O1", fnKey(c.P, st, "IO pool stop position"), c.Pos(in), "the IO task pool is not stopped between the stop hook and the pollers")
 				}
 			}
@@ -131,7 +134,7 @@ func runC18(c *Ctx) {
 		// waits dominate every return; snapshot under the engine mutex
 		bad = ""
 		for _, r := range fi.Returns() {
-			for _, w := range []step{steps[3], steps[7]} {
+			for _, w := range []step{steps[4], steps[8]} {
 				for _, in := range w.ins {
 					if !fi.Dominates(in, r) {
 						bad = w.name + " is not on every path to the return: Stop could return before the close notifications / goroutines are done"
@@ -139,7 +142,7 @@ func runC18(c *Ctx) {
 				}
 			}
 		}
-		for _, in := range steps[1].ins {
+		for _, in := range steps[2].ins {
 			if !L.HeldClass(in, "nbio.Engine.mux") {
 				bad = "the connection snapshot is taken without Engine.mux"
 			}
@@ -784,5 +787,99 @@ func c18Round5(c *Ctx) {
 			c.Cond(!fi.CanReach(add, ins), "C18.O14", key, c.Pos(ins), "insert precedes AddConn",
 				"the connection is inserted into Engine.conns at "+c.Pos(ins)+" after it was registered ("+c.Pos(add)+"): if it is closed in between (the peer hangs up during the open handler) the close job's delete comes first and the late insert leaves a stale entry; Shutdown then never sees the table drain")
 		}
+	}
+}
+
+// c18ListenerCount: O15.
+func c18ListenerCount(c *Ctx) {
+	isWG := func(in ssa.Instruction, method string) bool {
+		cs, ok := ir.AsCall(in)
+		if !ok || c.P.CalleeName(cs.Common) != "(*sync.WaitGroup)."+method {
+			return false
+		}
+		fa, ok := ir.Root(cs.Common.Args[0]).(*ssa.FieldAddr)
+		return ok && c.P.FieldKey(fa) == "nbio.Engine.wgListeners"
+	}
+	if st := c.Fn("C18.O15", "(*nbio.Engine).Start"); st != nil {
+		fi := c.P.Info(st)
+		bad := ""
+		n := 0
+		for _, b := range st.Blocks {
+			for _, in := range b.Instrs {
+				g, ok := in.(*ssa.Go)
+				if !ok || c.P.CalleeName(&g.Call) != "(*nbio.poller).start" {
+					continue
+				}
+				// a listener: the receiver is an element of Engine.listeners
+				recv := ir.Resolve(g.Call.Args[0])
+				isListener := false
+				if e, ok := recv.(*ssa.Extract); ok {
+					_ = e
+					isListener = true // range over g.listeners yields (index, element)
+				}
+				if a, ok := ir.IsLoad(recv); ok {
+					if ia, ok := a.(*ssa.IndexAddr); ok && c.P.LoadedField(ia.X) == "nbio.Engine.listeners" {
+						isListener = true
+					}
+					if ia, ok := a.(*ssa.IndexAddr); ok && c.P.LoadedField(ia.X) == "nbio.Engine.pollers" {
+						isListener = false
+					}
+				}
+				if !isListener {
+					continue
+				}
+				n++
+				added := false
+				for _, in2 := range b.Instrs {
+					if in2 == in {
+						break
+					}
+					if isWG(in2, "Add") {
+						added = true
+					}
+				}
+				if !added {
+					for _, b2 := range st.Blocks {
+						for _, in2 := range b2.Instrs {
+							if isWG(in2, "Add") && fi.Dominates(in2, in) && in2.Block() == in.Block() {
+								added = true
+							}
+						}
+					}
+				}
+				if !added {
+					bad = "a listener's goroutine is started at " + c.Pos(in) + " without Engine.wgListeners.Add(1) before it: Stop's wait for the acceptors does not cover it, and a connection it has just accepted is added behind Stop's sweep"
+				}
+			}
+		}
+		if n == 0 {
+			c.Unres("C18.O15", fnKey(c.P, st, "listener goroutines counted"), "no go l.start() for a listener found")
+		} else {
+			c.Cond(bad == "", "C18.O15", fnKey(c.P, st, "listener goroutines counted"), c.FnPos(st), fmt.Sprintf("%d listener start site(s) behind Add(1)", n), bad)
+		}
+	}
+	if ps := c.Fn("C18.O15", "(*nbio.poller).start"); ps != nil {
+		fi := c.P.Info(ps)
+		ok := false
+		for _, b := range ps.Blocks {
+			for _, in := range b.Instrs {
+				d, isD := in.(*ssa.Defer)
+				if !isD || c.P.CalleeName(&d.Call) != "(*sync.WaitGroup).Done" {
+					continue
+				}
+				fa, isFA := ir.Root(d.Call.Args[0]).(*ssa.FieldAddr)
+				if !isFA || c.P.FieldKey(fa) != "nbio.Engine.wgListeners" {
+					continue
+				}
+				if fi.HasFact(in, func(ft ir.Fact) bool {
+					k, set, okk := c.P.BoolFieldTest(ft.Cond, ft.Truth)
+					return okk && k == "nbio.poller.isListener" && set
+				}) {
+					ok = true
+				}
+			}
+		}
+		c.Cond(ok, "C18.O15", fnKey(c.P, ps, "listener edge defers Done"), c.FnPos(ps), "defer wgListeners.Done() on the isListener edge",
+			"poller.start does not defer Engine.wgListeners.Done() on its listener edge: Engine.Stop waits for the acceptor goroutines for ever")
 	}
 }
